@@ -2,7 +2,7 @@
 TB = "Trusted: Kani 0.68 MIR->goto translation, CBMC 6.11 float_bv (one NaN; its fma is replaced by a corrected model on zero factors, its f64 `%` is not used by any claimed clause - DESIGN section 8), kissat/cvc5, rustc + host FPU for native replay and ground evaluation. "
 T_PROOF = "contract proof (Kani/CBMC bit-precise), modular contract stubs, native replay of counterexamples"
 T_MITER = "contract proof: miter of the real body against the published algorithm / the inherent function (Kani/CBMC, cvc5 and Ackermann stubs), leaf contracts proved per exponent gap, native replay judged by exact Fix arithmetic"
-T_MIX = "contract proof of totality/domain/structure clauses (Kani/CBMC, value-independent operator stubs) + native evaluation of the finite exact-point sets; accuracy clauses not decided"
+T_MIX = "contract proof of totality/domain/structure clauses (Kani/CBMC, value-independent operator stubs) + native evaluation of the finite exact-point sets; accuracy clauses: finite mpmath reference sample only (not a proof)"
 
 CLAIMS = {
     "C01": {
@@ -66,32 +66,32 @@ CLAIMS = {
         "technique": "ground evaluation of a finite set against independently derived reference words + contract proofs (Kani/CBMC)",
     },
     "C13": {
-        "text": "Proved: powi never panics for any i32 exponent (complete 32-fold unwinding, overflow checks on); powi(x,0) == 1 / NaN, powi(x,1) == x; sqrt of every negative valid x is invalid, sqrt(0) == 0; sqrt/cbrt/hypot total. Bounded: powi(x,-n) == powi(x,n).recip() for n <= 3 on the real operators, plus a native ground set up to n = i32::MAX; exact points sqrt(+-0), cbrt(+-0). NOT decided: every accuracy bound.",
+        "text": "Proved: powi never panics for any i32 exponent (complete 32-fold unwinding, overflow checks on); powi(x,0) == 1 / NaN, powi(x,1) == x; sqrt of every negative valid x is invalid, sqrt(0) == 0; sqrt/cbrt/hypot total. Bounded: powi(x,-n) == powi(x,n).recip() for n <= 3 on the real operators, plus a native ground set up to n = i32::MAX; exact points sqrt(+-0), cbrt(+-0). NOT decided: every accuracy bound. The accuracy clauses are additionally evaluated on a finite mpmath reference sample (180 stratified operands, exact comparison in Fix arithmetic): a sample, reported as ground-evaluated, not a proof.",
         "note": TB + "Operators are value-independent stubs in the totality obligations. Two defects found and repaired (powi(x, i32::MIN) overflow; cbrt(0) == NaN).",
         "technique": T_MIX,
     },
     "C14": {
-        "text": "Proved for every valid argument: exp, exp2, exp_m1, powf never panic (range reduction through the real TwoFloat - f64 with leaf contracts must keep the quarter-range assertion and every table index in bounds); exp(x) == 0 for x <= -750, non-finite for x >= 710, exp2(x) == 0 for x <= -1080, non-finite for x >= 1024; powf case table (0^0 invalid, x^0 == 1, 0^y == 0, negative base with non-integer y invalid, integer y gives +-|x|^y). Ground: exp(+-0), exp_m1(0), exp2(k) == 2^k for all 2045 integers k, parity rule of powf on 520 exponents incl. 2^53+1, 2^60+1. NOT decided: every accuracy floor.",
+        "text": "Proved for every valid argument: exp, exp2, exp_m1, powf never panic (range reduction through the real TwoFloat - f64 with leaf contracts must keep the quarter-range assertion and every table index in bounds); exp(x) == 0 for x <= -750, non-finite for x >= 710, exp2(x) == 0 for x <= -1080, non-finite for x >= 1024; powf case table (0^0 invalid, x^0 == 1, 0^y == 0, negative base with non-integer y invalid, integer y gives +-|x|^y). Ground: exp(+-0), exp_m1(0), exp2(k) == 2^k for all 2045 integers k, parity rule of powf on 520 exponents incl. 2^53+1, 2^60+1. NOT decided: every accuracy floor. The accuracy clauses are additionally evaluated on a finite mpmath reference sample (230 stratified operands, exact comparison in Fix arithmetic): a sample, reported as ground-evaluated, not a proof.",
         "note": TB + "CBMC mis-models the f64 remainder used by powf's parity test: that clause is decided natively only. One defect found and repaired (exp panicked on (0.75, -4e-17)).",
         "technique": T_MIX,
     },
     "C15": {
-        "text": "Proved for every valid argument: ln, log2, log10, ln_1p, log never panic; ln/log2 of x <= 0 and ln_1p of x <= -1 are invalid; log10(x) == x.ln()/RN2(ln 10) bit for bit (ln an arbitrary fixed function). Ground: ln(1) = log2(1) = log10(1) = ln_1p(0) = 0, log2(2^k) == k for all 1961 integers k in [-1000, 960], log(x,b) == ln x / ln b. NOT decided: every tolerance.",
+        "text": "Proved for every valid argument: ln, log2, log10, ln_1p, log never panic; ln/log2 of x <= 0 and ln_1p of x <= -1 are invalid; log10(x) == x.ln()/RN2(ln 10) bit for bit (ln an arbitrary fixed function). Ground: ln(1) = log2(1) = log10(1) = ln_1p(0) = 0, log2(2^k) == k for all 1961 integers k in [-1000, 960], log(x,b) == ln x / ln b. NOT decided: every tolerance. The accuracy clauses are additionally evaluated on a finite mpmath reference sample (300 stratified operands, exact comparison in Fix arithmetic): a sample, reported as ground-evaluated, not a proof.",
         "note": TB + "One defect found and repaired (log2(1) returned 1).",
         "technique": T_MIX,
     },
     "C16": {
-        "text": "Proved for every argument: sin, cos, tan, sin_cos never panic and an invalid argument gives an invalid result; sin_cos(x) == (sin x, cos x) bit for bit (argument reduction and the two restricted polynomials arbitrary fixed functions: the three quadrant dispatch tables agree). Ground: sin(0), cos(0), tan(0), sin_cos(0). NOT decided: the 2^-66 / 2^-64 / 2^-50 accuracy clauses.",
+        "text": "Proved for every argument: sin, cos, tan, sin_cos never panic and an invalid argument gives an invalid result; sin_cos(x) == (sin x, cos x) bit for bit (argument reduction and the two restricted polynomials arbitrary fixed functions: the three quadrant dispatch tables agree). Ground: sin(0), cos(0), tan(0), sin_cos(0). NOT decided: the 2^-66 / 2^-64 / 2^-50 accuracy clauses. The accuracy clauses are additionally evaluated on a finite mpmath reference sample (270 stratified operands, exact comparison in Fix arithmetic): a sample, reported as ground-evaluated, not a proof.",
         "note": TB,
         "technique": T_MIX,
     },
     "C17": {
-        "text": "Proved: asin/acos of |x| > 1 or of an invalid x are invalid; atan2 on the axes returns exactly 0, +-pi/2, +-pi following the signs (incl. atan2(+-0, x<0) == +-pi); asin/acos/atan/atan2 total. Ground: asin(0) = atan(0) = acos(1) = 0, asin(+-1), acos(-1) to 2^-100, the tabulated atan(1/2), atan(3/2) are the correctly rounded double-doubles. NOT decided: the accuracy clauses.",
+        "text": "Proved: asin/acos of |x| > 1 or of an invalid x are invalid; atan2 on the axes returns exactly 0, +-pi/2, +-pi following the signs (incl. atan2(+-0, x<0) == +-pi); asin/acos/atan/atan2 total. Ground: asin(0) = atan(0) = acos(1) = 0, asin(+-1), acos(-1) to 2^-100, the tabulated atan(1/2), atan(3/2) are the correctly rounded double-doubles. NOT decided: the accuracy clauses. The accuracy clauses are additionally evaluated on a finite mpmath reference sample (260 stratified operands, exact comparison in Fix arithmetic): a sample, reported as ground-evaluated, not a proof.",
         "note": TB,
         "technique": T_MIX,
     },
     "C18": {
-        "text": "Proved: the six hyperbolic functions never panic on valid arguments (exp/ln/sqrt value-independent). Ground: the six exact points; acosh(x<1), atanh(|x|>=1) invalid on 5 sample points. NOT decided: every accuracy clause (including asinh for negative arguments, where executing the code shows cancellation - DESIGN section 7, D7) and the domain rules for all x.",
+        "text": "Proved: the six hyperbolic functions never panic on valid arguments (exp/ln/sqrt value-independent). Ground: the six exact points; acosh(x<1), atanh(|x|>=1) invalid on 5 sample points. NOT decided: every accuracy clause (including asinh for negative arguments, where executing the code shows cancellation - DESIGN section 7, D7) and the domain rules for all x. The accuracy clauses are additionally evaluated on a finite mpmath reference sample (320 stratified operands, exact comparison in Fix arithmetic): a sample, reported as ground-evaluated, not a proof. The sample exposed the asinh cancellation for negative arguments (repaired in /repo, 784505a).",
         "note": TB + "Weakest claim of the set: only totality is universal.",
         "technique": T_MIX,
     },
